@@ -141,23 +141,23 @@ CHECKS.update({
 NOT_YET = {}
 # dimensions added to the generators after the rounds of independently written breaking changes (DESIGN.md 0.5)
 ADDED = {
-    "C01": "Also: every tz-database name as TIMEZONE for epoch numbers; wall times in DST gaps / folds under TIMEZONE; complete dates on the reference date / on today's date under every PREFER_DATES_FROM. Round 6: process histories of neighbouring calls (other clock spellings, zone-bearing strings, relative phrases, failing strings, other languages).",
-    "C02": "Also: near-miss invalid values; every settings key x value of every type class and 2-3-entry dicts judged by Validate.tla (P_Validate laws); live-parser / look-alike-settings mini-histories; strings shaped for each parser's entry regex with look-alike signs, colons, digits and case-folding look-alike letters; refinement of the parser loop (Pipeline.tla) on every probed call. Round 6: strings rendered from generated formats (so that they match, %z / %Z included), every kind of TIMEZONE / TO_TIMEZONE value the library resolves; the other arguments (languages, locales, region, booleans, date string, formats) with values of every type class, judged by Validate.tla ArgsVerdict.",
-    "C03": "Also: settings-neighbour, locale-sibling (any load order), locale-switch, region=, caller-held-object (detection callback, list edited in place) histories.",
-    "C04": "Also: range ends; several units with a clock time; seconds and fractions in clock times; a third of the cases on parsers all built before use; implicit now with the library's clock moved to clamping days. Round 6: process histories with equal settings (one RELATIVE_BASE object per value and process).",
+    "C01": "Also: every tz-database name as TIMEZONE for epoch numbers; wall times in DST gaps / folds under TIMEZONE; complete dates on the reference date / on today's date under every PREFER_DATES_FROM. Round 6: process histories of neighbouring calls (other clock spellings, zone-bearing strings, relative phrases, failing strings, other languages). Round 7: coincidences between the fields of one string (fraction = year / month-day / clock ...).",
+    "C02": "Also: near-miss invalid values; every settings key x value of every type class and 2-3-entry dicts judged by Validate.tla (P_Validate laws); live-parser / look-alike-settings mini-histories; strings shaped for each parser's entry regex with look-alike signs, colons, digits and case-folding look-alike letters; refinement of the parser loop (Pipeline.tla) on every probed call. Round 6: strings rendered from generated formats (so that they match, %z / %Z included), every kind of TIMEZONE / TO_TIMEZONE value the library resolves; the other arguments (languages, locales, region, booleans, date string, formats) with values of every type class, judged by Validate.tla ArgsVerdict. Round 7: zone near-miss words in the string generator.",
+    "C03": "Also: settings-neighbour, locale-sibling (any load order), locale-switch, region=, caller-held-object (detection callback, list edited in place) histories. Round 7: language lists with a repeated code, every distinct call under several interpreter hash seeds.",
+    "C04": "Also: range ends; several units with a clock time; seconds and fractions in clock times; a third of the cases on parsers all built before use; implicit now with the library's clock moved to clamping days. Round 6: process histories with equal settings (one RELATIVE_BASE object per value and process). Round 7: decimal counts inside multi-unit phrases; Periods.tla (get_intersecting_periods / date_range) bound here as a refinement.",
     "C05": "Also: vocabulary taken from pristine data with a model-side overlay; regional locales loaded first in fresh processes; search_dates reaching a language first under the same settings; domain = the name as listed (normalisation collisions are findings). Round 6: the listed name's look-alikes (accents removed, other case) on the same parser right before the name.",
     "C06": "Also: wide counts (year-like, day-like, leading zero); the same phrase again under the other NORMALIZE value. Round 6: decimal counts with short and long fractions in both tiers.",
-    "C07": "Also: failing calls interleaved; pre-built parsers incl. settings with equal effective values and different explicit keys; weekday words next to numeric dates. Round 6: every written form of the time suffix (ISO T, fraction, Z, numeric offsets); year-last dates whose year spells a UTC offset are judged (known finding).",
-    "C08": "Also: decoy formats around the format under test; explicit / locale / region date orders for named-month dates; timezone-aware references near midnight; custom-format cases with the library's clock on days 28-31. Round 6: bystander settings (a REQUIRE_PARTS the string meets, defaults spelled out).",
-    "C09": "Also: zones with daylight saving around their transitions (time of day preserved); no RELATIVE_BASE with the live clock bracketed in workers far from UTC. Round 6: clock times that carry their own zone under every TIMEZONE.",
+    "C07": "Also: failing calls interleaved; pre-built parsers incl. settings with equal effective values and different explicit keys; weekday words next to numeric dates. Round 6: every written form of the time suffix (ISO T, fraction, Z, numeric offsets); year-last dates whose year spells a UTC offset are judged (known finding). Round 7: the parser used through a pickled / copied copy (fresh interpreters).",
+    "C08": "Also: decoy formats around the format under test; explicit / locale / region date orders for named-month dates; timezone-aware references near midnight; custom-format cases with the library's clock on days 28-31. Round 6: bystander settings (a REQUIRE_PARTS the string meets, defaults spelled out). Round 7: settings as Settings objects (one and two replace steps) or a dict emptied after construction.",
+    "C09": "Also: zones with daylight saving around their transitions (time of day preserved); no RELATIVE_BASE with the live clock bracketed in workers far from UTC. Round 6: clock times that carry their own zone under every TIMEZONE. Round 7: timezone-aware references (calendar-field forms, and clock times under the reference's own DST zone: repaired by 990bda8); a parser for the same instant in another zone built next to each of them.",
     "C10": "Also: every preference next to strictness; timezone-aware references of two offsets with results observed as instants. Round 6: fully stated four-digit-year dates in every order of writing x reading x preference; strings with two date tokens under every order (known finding).",
     "C11": "Also: month-name bodies; the numeric spelling after the bare abbreviation in the same process; clock-time-only bodies with a zone under every preference. Round 6: English selected but not first among the languages; bodies in other space-separated languages with autodetection.",
-    "C12": "Also: every (zone, own tzname also listed by the library) pair; a sample re-run in workers whose zone is far from UTC; timezone-aware reference times for relative phrases. Round 6: settings given as a Settings object / as a dict emptied after construction; relative phrases that move the reference across DST changes.",
-    "C13": "Also: selections as locales=; order-specific numeric strings and tl as pairing reference; conventions of regional locales after same-language history in fresh processes; try_previous_locales pairs; Tokenize.tla / Translate.tla (split, applicability, translation: model laws, exhaustive small domain through the real Dictionary class, probes in 205 languages) and LoaderOps.tla / Loader.tla (pairing, order, cache; pinned pairing refuted; probe replay) are bound here. Round 6: the selected locale's date order reaches every parser (relation to the explicitly stated order, all five parsers).",
+    "C12": "Also: every (zone, own tzname also listed by the library) pair; a sample re-run in workers whose zone is far from UTC; timezone-aware reference times for relative phrases. Round 6: settings given as a Settings object / as a dict emptied after construction; relative phrases that move the reference across DST changes. Round 7: histories whose reference is the same instant written in another zone.",
+    "C13": "Also: selections as locales=; order-specific numeric strings and tl as pairing reference; conventions of regional locales after same-language history in fresh processes; try_previous_locales pairs; Tokenize.tla / Translate.tla (split, applicability, translation: model laws, exhaustive small domain through the real Dictionary class, probes in 205 languages) and LoaderOps.tla / Loader.tla (pairing, order, cache; pinned pairing refuted; probe replay) are bound here. Round 6: the selected locale's date order reaches every parser (relation to the explicitly stated order, all five parsers). Round 7: the fallback order judged against each default language alone; the other use_given_order value first with the same settings and lists; caller-held lists compared afterwards.",
     "C14": "Also: ~600 generated formats of distinct directives (English) and generated formats for localized names; every listed name variant of every language; decoy formats; RELATIVE_BASE given (and irrelevant); the library's clock on month ends / leap days. Round 6: formats that begin / end with literal whitespace.",
     "C15": "Also: fractions of a second; the library's clock moved to the 30th / 31st of calendar months, month ends, leap days.",
     "C16": "Also: the generator run for real on a private copy (written files = shipped files). Round 6: the YAML-subset reader rejects duplicate keys as ruamel does.",
-    "C17": "Also: connective words between date pieces; invisible characters inside texts; the same text re-cased right after the original; substrings must occur in their own letter case; refinement of the language choice (Detect.tla) and of the chunking loop (SearchChunks.tla). Round 6: enumerations joined by each of the library's cut marks in every language; refinement of split_by / choose_best_split / set_relative_base (SearchSplit.tla) and of the word alignment (Align.tla: laws model-checked, observed calls and an exhaustive small domain through the real method validated).",
+    "C17": "Also: connective words between date pieces; invisible characters inside texts; the same text re-cased right after the original; substrings must occur in their own letter case; refinement of the language choice (Detect.tla) and of the chunking loop (SearchChunks.tla). Round 6: enumerations joined by each of the library's cut marks in every language; refinement of split_by / choose_best_split / set_relative_base (SearchSplit.tla) and of the word alignment (Align.tla: laws model-checked, observed calls and an exhaustive small domain through the real method validated). Round 7: skip / pertain words at line ends; blank leftovers of non-ASCII whitespace (repaired by aaa6c4d).",
     "C18": "Also: letter-ending strings and the sanitiser's special forms; number shapes of every parser; rewritings combined with date_formats. Round 6: whitespace by the hundreds of characters.",
     "C19": "Also: well-formed pickles of the wrong shape; imports under BUILD_TZ_CACHE and PYTHONOPTIMIZE. Round 6: imports with warnings turned into errors.",
     "C20": "Also: get_date_tuple in the call pool; the same exploration inside a forked child. Round 6: search_dates with the detected language reported; every preemption point outside the library's lock, explored first.",
